@@ -80,7 +80,8 @@ fn count_marker(toks: &[Tok], m: &str) -> usize {
 const ENABLED_CFG: [&str; 2] = ["#[cfg(all())]", "#[cfg(not(any()))]"];
 // (a `cfg` inside an always-true `cfg_attr` disables the fn just the same)
 // (so does one next to a nested `cfg_attr` that carries no `cfg`, one under a literal predicate, and one nested twice)
-const DISABLED_CFG: [&str; 7] = [
+// (the last two: several `cfg`s on one fn, an enabled one first)
+const DISABLED_CFG: [&str; 9] = [
     "#[cfg(any())]",
     "#[cfg(not(all()))]",
     "#[cfg_attr(all(), cfg(any()))]",
@@ -88,6 +89,8 @@ const DISABLED_CFG: [&str; 7] = [
     "#[cfg_attr(all(), cfg_attr(all(), inline), cfg(any()))]",
     "#[cfg_attr(true, cfg(any()))]",
     "#[cfg_attr(all(), cfg_attr(not(any()), cfg(not(all()))))]",
+    "#[cfg(all())] #[cfg(any())]",
+    "#[cfg(not(any()))] #[doc = \"two\"] #[cfg(not(all()))]",
 ];
 
 /// the attribute carries one of the disabling `cfg`s above (as written, or reduced to its `cfg` part)
@@ -109,7 +112,7 @@ fn decorate_fn(t: &mut Tape, mk: &mut Markers, f: &mut gen::FnSrc, allow_disable
         }
         _ => {
             let pos = t.choose(f.attrs.len() + 1);
-            f.attrs.insert(pos, DISABLED_CFG[t.weighted(&[3, 3, 2, 2, 1, 1, 1])].to_string());
+            f.attrs.insert(pos, DISABLED_CFG[t.weighted(&[3, 3, 2, 2, 1, 1, 1, 2, 1])].to_string());
             disabled.push(f.name.clone());
         }
     }
@@ -202,7 +205,7 @@ pub fn gen_case(t: &mut Tape, allow_disabled_cfg: bool) -> Case {
                     mk.once.truncate(before);
                     if t.chance(1, 4) {
                         let pos = t.choose(m.attrs.len() + 1);
-                        let c = if t.flip() { ENABLED_CFG[t.choose(2)] } else { DISABLED_CFG[t.weighted(&[3, 3, 2, 2, 1, 1, 1])] };
+                        let c = if t.flip() { ENABLED_CFG[t.choose(2)] } else { DISABLED_CFG[t.weighted(&[3, 3, 2, 2, 1, 1, 1, 2, 1])] };
                         m.attrs.insert(pos, c.to_string());
                     }
                     mirrored.push(m.name.clone());
@@ -472,7 +475,7 @@ fn e2_case(t: &mut Tape, feature_unimock: bool) -> (String, String) {
     let mocks = feature_unimock && t.flip();
     // (don't-care: with a mock derivation on the trait, a `cfg` inside `cfg_attr` is the mock library's to understand -
     // unimock's derive only looks at plain `cfg` attributes of the methods - so those spellings are used without mocks only)
-    let cfg_off = move |t: &mut Tape| DISABLED_CFG[if mocks { t.weighted(&[3, 3, 0, 0, 0, 0, 0]) } else { t.weighted(&[3, 3, 2, 2, 1, 1, 1]) }];
+    let cfg_off = move |t: &mut Tape| DISABLED_CFG[if mocks { t.weighted(&[3, 3, 0, 0, 0, 0, 0, 2, 1]) } else { t.weighted(&[3, 3, 2, 2, 1, 1, 1, 2, 1]) }];
     let cfg_on = |t: &mut Tape| if t.chance(1, 3) { ENABLED_CFG[t.choose(2)] } else { "" };
     let mut src = String::from("#![allow(warnings)]\nuse crate::rt;\npub struct App;\n");
     let mut run = String::from("pub fn run() -> Vec<String> {\n    let mut fails = vec![];\n    let app = ::entrait::Impl::new(App);\n");
